@@ -277,12 +277,12 @@ fn big_rects() -> Vec<R4> {
 fn run_part(run: &mut Run) {
     let tier = run.tier;
     run.sweep_vec("single", "all rectangles with top-left in [-3,3]x[-2,2] and w,h in 0..=4 (thorough [-4,4]x[-3,3], 0..=6) plus the boundary-value product of 6 coordinates and 6 sizes around +-2^20: points, contains (box grown by 2), bottom_right, center, with_center, rows/columns, 9 anchor points, offsets -5..=5, resized to all sizes 0..=5^2 for 9 anchors", || {
-        let mut v: Vec<One> = if tier.is_thorough() { small_rects(4, 3, 6) } else { small_rects(3, 2, 4) }.into_iter().map(|r| One { r }).collect();
+        let mut v: Vec<One> = if tier.is_thorough() { small_rects(5, 4, 7) } else { small_rects(3, 2, 4) }.into_iter().map(|r| One { r }).collect();
         v.extend(big_rects().into_iter().map(|r| One { r }));
         v
     }, check_one);
     run.sweep_vec("pairs", "all ordered pairs of the small rectangles (875^2 quick) plus all ordered pairs of a 6x6x4x4 boundary-value product: intersection (point set, symmetry, zero-sized iff empty) and envelope", || {
-        let s = if tier.is_thorough() { small_rects(3, 3, 5) } else { small_rects(3, 2, 4) };
+        let s = if tier.is_thorough() { small_rects(4, 3, 6) } else { small_rects(3, 2, 4) };
         let mut v = Vec::with_capacity(s.len() * s.len());
         for a in &s {
             for b in &s {
